@@ -302,6 +302,9 @@ class Interp:
         self.assume_no_overflow_checks = False
         self.extra_models = {}
         self.addr_syms = {}
+        self._err_only = {}
+        self.probe_mode = False
+        self.edge_hooks = []      # fn(I, ctx, block, err target, err state, other targets)
         self.pure_syms = {}
         self.discr_syms = {}
         self.type_invariants = {}
@@ -1227,6 +1230,7 @@ class Interp:
                         ok = True
                 self.note("assert:" + t["msg"], site, ok,
                           None if ok else self.explain(st, cond, exp, ops), st=st, lemma=lemma,
+                          definite=(not ok) and holds(st, cond, not exp),
                           operands=[o.aff if isinstance(o, IntV) else None for o in ops])
             out = assume(st, cond, exp)
             return [(t["t"], s2) for s2 in out]
@@ -1294,7 +1298,80 @@ class Interp:
             return repr(v)
         return "cannot prove %s%r; operands: %s" % ("" if exp else "not ", cond, "; ".join(rng(o) for o in ops))
 
+    def err_only(self, body, b, depth=0):
+        """does block b lead straight (no branching) to a return of Result::Err?"""
+        key = (body["id"], b)
+        c = self._err_only.get(key)
+        if c is not None:
+            return c
+        res = False
+        seen_err = False
+        cur = b
+        for _ in range(10):
+            bb = body["blocks"][cur]
+            for s_ in bb["stmts"]:
+                if s_["k"] == "assign" and s_["place"]["l"] == 0 and not s_["place"]["p"]:
+                    rv = s_["rv"]
+                    if rv["k"] == "aggregate" and rv["kind"].get("path") == "core::result::Result":
+                        seen_err = rv["kind"].get("variant") == 1
+                    else:
+                        seen_err = False
+            t = bb["term"]
+            if t["k"] == "call":
+                p = (t.get("resolved") or t.get("callee") or {}).get("path", "")
+                if "FromResidual" in p and "from_residual" in p and t["dest"]["l"] == 0 and not t["dest"]["p"]:
+                    seen_err = True
+                    cur = t["t"]
+                    if cur is None:
+                        break
+                    continue
+                break
+            if t["k"] in ("goto", "drop"):
+                cur = t["t"]
+                continue
+            if t["k"] == "return":
+                res = seen_err
+            break
+        self._err_only[key] = res
+        return res
+
+    def probe(self, ctx, block, st, budget=60):
+        """forced continuation from `block` with state st: returns the events
+        recorded until the next error-guarded branch / loop boundary / return"""
+        saved_events = self.events
+        saved_rec = self.recording
+        saved_probe = self.probe_mode
+        n_ret = len(ctx.returns)
+        self.events = []
+        self.recording = True
+        self.probe_mode = True
+        try:
+            self.run_region(ctx, ctx.info.inner.get(block), {block: [st]})
+        except Exception:
+            pass
+        finally:
+            out = self.events
+            self.events = saved_events
+            self.recording = saved_rec
+            self.probe_mode = saved_probe
+            del ctx.returns[n_ret:]
+        return out
+
     def exec_switch(self, ctx, bi, st, t):
+        targets = [a[1] for a in t["arms"]] + [t["otherwise"]]
+        has_err = self.edge_hooks and any(self.err_only(ctx.body, x) for x in targets)
+        if self.probe_mode and has_err:
+            return []
+        out = self.exec_switch_(ctx, bi, st, t)
+        if has_err and self.recording and not self.probe_mode:
+            errs = [(tg, s2) for tg, s2 in out if self.err_only(ctx.body, tg)]
+            oks = sorted(set(tg for tg in targets if not self.err_only(ctx.body, tg)))
+            for tg, s2 in errs:
+                for h in self.edge_hooks:
+                    h(self, ctx, bi, tg, s2, oks)
+        return out
+
+    def exec_switch_(self, ctx, bi, st, t):
         v = self.operand(ctx, st, t["op"])
         ty = self.prog.ty(t["ty"], ctx.subst)
         it = self.int_ty(ty) or (64, True)
@@ -1656,7 +1733,7 @@ class Interp:
         finally:
             self.recording = saved
         backs, exits = self.run_region(ctx, h, {h: [with_snapshot(head)]})
-        if self.recording:
+        if self.recording and not self.probe_mode:
             for hk in self.loop_hooks:
                 hk(self, ctx, h, head, backs, exits)
         for _, s_ in exits:
